@@ -6,17 +6,17 @@ Fixpoint insert (x : nat) (l : list nat) : list nat :=
 Definition sort (l : list nat) : list nat := fold_right insert [] l.
 Definition nat_list_eqb := list_eqb Nat.eqb.
 
-(* observed step: (task answered, writes, pending requests afterwards (sorted)) *)
-Definition ostep := (nat * list (nat * bool) * list nat)%type.
+(* observed step: (task answered, writes, pending requests afterwards (sorted), end events reached by the step (sorted)) *)
+Definition ostep := (nat * list (nat * bool) * list nat * list nat)%type.
 
 Fixpoint replay (s : env * run) (steps : list ostep) : option (env * run) :=
   match steps with
   | [] => Some s
-  | (t, ws, p) :: r =>
+  | (t, ws, p, en) :: r =>
       (* only a pending task can be answered *)
       if existsb (Nat.eqb t) (pending (snd s)) then
         let s' := step s (t, ws) in
-        if nat_list_eqb (sort (pending (snd s'))) p then replay s' r else None
+        if nat_list_eqb (sort (pending (snd s'))) p && nat_list_eqb (sort (step_ends s (t, ws))) en then replay s' r else None
       else None
   end.
 
@@ -42,13 +42,14 @@ Definition sp_ok (evs : list nat) : bool :=
 
 Definition bool_list_eqb := list_eqb Bool.eqb.
 
-(* case: program, initial variables, pending after start, steps, final variables, per sub-process event lists *)
-Definition case_ok (c : blk * list bool * list nat * list ostep * list bool * list (list nat)) : bool :=
-  let '(b, e0, first, steps, efin, subs) := c in
+(* case: program, initial variables, (pending after start, end events reached at start), steps, final variables,
+   whether the program's final end event was reached, per sub-process event lists *)
+Definition case_ok (c : blk * list bool * (list nat * list nat) * list ostep * list bool * bool * list (list nat)) : bool :=
+  let '(b, e0, (first, ends0), steps, efin, final_end, subs) := c in
   let s0 := (e0, start e0 b) in
-  nat_list_eqb (sort (pending (snd s0))) first &&
+  nat_list_eqb (sort (pending (snd s0))) first && nat_list_eqb (sort (ends_start e0 b)) ends0 &&
   match replay s0 steps with
-  | Some (e, r) => fin r && bool_list_eqb e efin
+  | Some (e, r) => complete r && Bool.eqb (fin r) final_end && bool_list_eqb e efin
   | None => false
   end && forallb sp_ok subs.
 Definition c12_mismatches := mism_from case_ok 0.
